@@ -57,6 +57,9 @@ CHECKS = {
  "C13": dict(cat="model_checking", tech="stateless exploration of the real CallLLM with the provider as an explorer-controlled transport: every sequence of provider responses over a 32-letter alphabet across both calls and all retries (deviation bound 2 / exhaustive), plus hostile commit messages and the built `sfw audit` per verdict class",
    text="The reply to every HTTP request is a choice point; the explorer enumerates all response sequences (quick: at most two non-default answers; thorough: the whole tree, 3.8 million executions) and checks on each that a passing verdict implies a well-formed safe sentinel answer and a well-formed exact-MATCH final answer, and that every payload received keeps the nonce-delimited envelope with the commit message as one JSON string. The verdict-to-exit mapping is bound by running the real binary once per verdict class.",
    note="Trusted: the alphabet represents the provider's behaviours; the model itself is outside. Gemini-path requests go through the same retry/validation code but are not separately enumerated.", ref="3/C13"),
+ "C01": dict(cat="model_checking", tech="stateless exploration of the real fingerprinter with map-iteration orders (overlay-instrumented range statements), pooled-object reuse histories and caller interleavings as explorer choice points; byte-equality with the default execution; process-level configuration runs; separate -race pass",
+   text="Every range over a map in the canonicalisation pipeline becomes a choice point derived from the working tree; all executions with at most one (quick) or two (thorough) deviating sites are run for every function of a 61-function corpus under both policies; the canonicaliser pool is modelled so that Get may return any pooled object, over all histories of up to two prior uses and all interleavings of 2-3 concurrent callers, with a pool-discipline monitor; the built binary is run as fresh processes across GOMAXPROCS and directories. Every trace is an implementation run; results must be byte-identical.",
+   note="Trusted: permutation menu for maps with more than four keys; scheduling points only at synchronisation operations (the -race pass covers unsynchronised sharing, as sampling).", ref="3/C01"),
 }
 NOT_YET = {}
 ALL = ["C%02d" % i for i in range(1, 21)]
